@@ -677,3 +677,15 @@ func (w *wbuf) xrBlock(b *XRBlock, o *EncOpts) error {
 	w.b[start+3] = uint8(words)
 	return nil
 }
+
+// EncodeXRBlock returns the reference encoding of one XR report block.
+func EncodeXRBlock(b XRBlock, o *EncOpts) ([]byte, error) {
+	if o == nil {
+		o = &EncOpts{}
+	}
+	w := &wbuf{}
+	if err := w.xrBlock(&b, o); err != nil {
+		return nil, err
+	}
+	return w.b, nil
+}
